@@ -633,3 +633,13 @@ Example ex_wide_eval :
   apply_op [] op_Equal (QNat 18446744073709551615) (QInt 18446744073709551615) = Ok (QNat 0) /\
   apply_op [] op_Less (QInt 18446744073709551615) (QNat 9223372036854775808) = Ok (QNat 1).
 Proof. vm_compute. repeat split. Qed.
+
+(* seeded C04_r7m2: a REAL left operand holding exactly -2^63 and a divisor that truncates to -1:
+   the -1 guard sits before the left operand is converted, the answer is Integer 0 (no INT64_MIN % -1) *)
+Example ex_real_min_rem :
+  let rmin := QReal (SpecFloat.S754_finite true 4503599627370496 11) in      (* -2^63 *)
+  q_rem rmin (QInt (wrapZ (-1))) = Ok (QInt 0) /\
+  q_rem rmin (QReal (SpecFloat.S754_finite true 6755399441055744 (-52))) = Ok (QInt 0) /\   (* -1.5 *)
+  q_rem rmin (QNat 3) = Ok (QInt (wrapZ (-2))) /\
+  q_rem rmin (QNat 0) = NoValue.
+Proof. vm_compute. repeat split. Qed.
